@@ -131,7 +131,7 @@ fn post_ok(local: &Files, hub_before: &Files, hub_after: &Files, r: &RunRes) -> 
 /// The hub's k-th file-system-mutating libc call FAILS (every k) while one client runs hub-sync: an exit status 0
 /// must still mean that every local file is on the hub; a failure must not have touched other paths.
 fn io_fault_part(thorough: bool, evals: &AtomicU64) -> Vec<Violation> {
-    let errnos: Vec<i32> = if thorough { vec![13, 28, 5] } else { vec![13] };
+    let errnos: Vec<i32> = if thorough { vec![13, 28, 5, -1] } else { vec![13, -1] };
     let cases: Vec<(&str, &str)> = vec![("fX+dgZ", "hub-f"), ("fY", "hub-h")];
     // (local, hub, errno, faults on the CLIENT's reads of its local tree instead of the hub's calls)
     let mut jobs: Vec<(&str, &str, i32, bool)> = cases.iter().flat_map(|(l, hb)| errnos.iter().map(move |e| (*l, *hb, *e, false))).collect();
